@@ -36,14 +36,16 @@ Inductive outcome (A : Type) :=
 | Ok (a : A)
 | Err          (* a StamError is returned *)
 | Panic        (* catchable panic *)
-| Abort.       (* process abort: allocation failure or stack overflow *)
+| Abort        (* process abort: allocation failure or stack overflow *)
+| Hang.        (* waits for ever *)
 Arguments Ok {A} a.
 Arguments Err {A}.
 Arguments Panic {A}.
 Arguments Abort {A}.
+Arguments Hang {A}.
 
 Definition bind {A B} (o : outcome A) (f : A -> outcome B) : outcome B :=
-  match o with Ok a => f a | Err => Err | Panic => Panic | Abort => Abort end.
+  match o with Ok a => f a | Err => Err | Panic => Panic | Abort => Abort | Hang => Hang end.
 
 (* ASCII literals of the source as codepoint lists *)
 Definition lit (s : string) : str := map N_of_ascii (list_ascii_of_string s).
@@ -289,7 +291,7 @@ Section TempId.
       else (SOk, {| slots := slots st + 1; alloc := alloc st; placed := slots st :: placed st |}) in
     match temp_handle old e with
     | Panic => (SPanic, st)
-    | Abort => (SAbort, st)
+    | Abort | Hang => (SAbort, st)
     | Err => (SErr, st)
     | Ok None => build st
     | Ok (Some h) =>
@@ -561,6 +563,36 @@ Fixpoint ds_include (old : bool) (stack : nat) (depth : nat) (files : list (opti
                end
            end
   end.
+
+(* "@include": "-" in a store or data set object: open_file_reader("-") is the standard input
+   of the process, and the visitor waits for a document on it.  Now "-" is refused. *)
+Definition include_stdin (old : bool) (stdin_open : bool) : outcome unit :=
+  if old then (if stdin_open then Hang else Err) else Err.
+
+(* ------------------------------------------------------------------ *)
+(* running time: the value lookup of insert_data                        *)
+
+(* AnnotationDataSet::insert_data(.., safety = true), reached for every inline data item of an
+   annotation: an item without "@id" is searched by value in the list of all data of its key
+   (data_by_value) before it is added.  Cost of one item = length of that list; an item with
+   an "@id" is found or not through the id map. *)
+Record ditem := { d_key : nat; d_hasid : bool }.
+
+Fixpoint dedup_cost (count : nat -> N) (l : list ditem) : N :=
+  match l with
+  | [] => 0
+  | d :: l' =>
+      (if d_hasid d then 0 else count (d_key d))
+      + dedup_cost (fun k => if Nat.eqb k (d_key d) then count k + 1 else count k) l'
+  end.
+
+(* closed form for the families the harness measures: n annotations with one inline data item each *)
+Definition load_cost (n : N) (hasid samekey : bool) : N :=
+  n + (if hasid then 0 else if samekey then n * (n - 1) / 2 else 0).
+
+(* superlinear: four times the input costs more than seven times as much *)
+Definition superlinear (n : N) (hasid samekey : bool) : bool :=
+  7 * load_cost n hasid samekey <? load_cost (4 * n) hasid samekey.
 
 (* ------------------------------------------------------------------ *)
 (* CBOR                                                                *)
